@@ -85,9 +85,9 @@ Print Assumptions C13_method_names_separate.
 (* ---- non-vacuity: a class with an Optional field holding None, an aliased field and a datetime field;
         D = {serialize_by_alias: True} and a user strategy for datetime (type 1, callable 9) ---- *)
 Definition ex_ds : list fdecl :=
-  [ {| d_plan := {| p_name := "a"; p_alias := None; p_tynull := true; p_trivial := true; p_default := DVal PNone; p_omit := false |}; d_ty := 0 |};
-    {| d_plan := {| p_name := "b"; p_alias := Some "bb"; p_tynull := false; p_trivial := true; p_default := DVal (PInt 1); p_omit := false |}; d_ty := 0 |};
-    {| d_plan := {| p_name := "dt"; p_alias := None; p_tynull := false; p_trivial := false; p_default := DNo; p_omit := false |}; d_ty := 1 |} ].
+  [ {| d_plan := mk_plan "a" None true (DVal PNone); d_ty := 0 |};
+    {| d_plan := mk_plan "b" (Some "bb") false (DVal (PInt 1)); d_ty := 0 |};
+    {| d_plan := mk_plan "dt" None false DNo; d_ty := 1 |} ].
 Definition ex_D : option ns := Some {| n_on := U; n_od := U; n_ba := T |}.
 Definition ex_usr : option smap := Some [(1%nat, SDict [("serialize", 9%nat)])].
 Definition ex_app (n: nat) (v: pv) : pv := PStr "2020".
